@@ -2077,7 +2077,6 @@ async fn run_case(spec: &CaseSpec) -> CaseOut {
                     if !changed.is_empty() {
                         let id = match act {
                             Act::AMsg(_, Msg::GhostChain(_)) | Act::AFlood(_, Msg::GhostChain(_), _) => Some("unsolicited-ghost-chain-accepted".to_string()),
-                            Act::AServe(ServeK::AsAnnounced) if served_kind == "WrongId" && changed.iter().any(|c| c.starts_with("chain")) => Some("block-id-gap-accepted".to_string()),
                             _ => None,
                         };
                         let txt: String = changed.join(" ;; ").chars().take(600).collect();
